@@ -5,7 +5,7 @@ from __future__ import annotations
 import math
 
 from rv.core import ctx as _ctx
-from rv.core import instrument
+from rv.core import calling, instrument
 from rv.core.tolerances import REAL_TOL
 from rv.gen import geoms
 
@@ -134,6 +134,9 @@ def judge(ctx, ss, ts, tb, fb):
             del it
         if ctx.every(spec, 4):
             list(M.match_geometries(tuple(src), tuple(tgt), time_buffer=tb, freq_buffer=fb))     # sequences, not only lists
+            of = instrument.original(M.match_geometries)
+            calling.agree(ctx, "match_geometries", lambda *a, **k: sorted(map(repr, of(*a, **k))), dict(source=src, target=tgt, time_buffer=tb, freq_buffer=fb), spec,
+                          variants={"numlike_buffers": {"time_buffer": calling.numlike(ctx.rng, tb), "freq_buffer": calling.numlike(ctx.rng, fb)}})
         first = list(M.match_geometries(src, tgt, time_buffer=tb, freq_buffer=fb))
         # the property holds for every call, also the second one on the very same objects
         second = list(M.match_geometries(src, tgt, time_buffer=tb, freq_buffer=fb))
